@@ -739,6 +739,8 @@ def history_corr_case(env: Env, drv, hist):
 SCOPE_FORMS = ["with", "decorator", "recursive", "mutual", "generator"]
 PROBE_EXPRS = [("add", ["var", 3], ["var", 9]),      # int64 Var + float32 Var: mixed element types
                ("add", ["var", 2], ["float", 2.5]),  # integer Var + Python float
+               ("add", ["var", 2], ["float", 2.0]),  # ... a WHOLE-NUMBER float is a float all the same
+               ("mul", ["float", -3.0], ["var", 3]),  # ... on the left
                ("truediv", ["var", 2], ["var", 2]),  # same element type
                ("neg", ["var", 2], None)]
 
@@ -759,7 +761,7 @@ def gen_scoped(rng, size):
             else:
                 s_, form = [rng.random() < 0.5, rng.random() < 0.6], rng.choice(SCOPE_FORMS)
             body = nodes(depth + 1, s_) if depth < 4 else ["p"]
-            out.append({"s": s_, "form": form, "raises": rng.random() < 0.15, "body": body})
+            out.append({"s": s_, "form": form, "raises": rng.random() < 0.15, "body": body, "call": rng.choice(CALL_STYLES)})
             if rng.random() < 0.6:
                 out.append("p")
         return out
@@ -781,10 +783,58 @@ FIXED_SCOPED = [
     # a generator suspended inside a block while the caller probes; an inner body that raises
     [{"s": [True, True], "form": "generator", "raises": False, "body": ["p", {"s": [False, False], "form": "decorator", "raises": True, "body": ["p"]}, "p"]}, "p"],
 ]
+# an inner block that switches promotion OFF inside an outer block with promotion ON - explicitly by keyword, positionally,
+# by omission (the default), in every block form, to depth 4, with a raising inner body: an explicit False is not "unset"
+for _form in ("with", "decorator", "recursive", "mutual", "generator"):
+    for _call, _cp in (("kw", True), ("pos", True), ("omit-tp", True), ("omit-both", True), ("kw", False), ("pos-tp", True)):
+        FIXED_SCOPED.append([{"s": [True, True], "form": "with", "raises": False, "call": "kw", "body": [
+            "p", {"s": [False, _cp], "form": _form, "raises": False, "call": _call, "body": ["p"]}, "p"]}, "p"])
+FIXED_SCOPED.append([{"s": [True, False], "form": "decorator", "raises": False, "call": "pos", "body": [
+    {"s": [False, True], "form": "with", "raises": False, "call": "omit-both", "body": [
+        "p", {"s": [True, True], "form": "with", "raises": False, "call": "omit-cp", "body": [
+            "p", {"s": [False, True], "form": "decorator", "raises": True, "call": "kw", "body": ["p"]}, "p"]}, "p"]}, "p"]}, "p"])
+
+
+CALL_STYLES = ["kw", "pos", "pos-tp", "omit-tp", "omit-cp", "omit-both"]
+
+
+def call_ok(style, s_):
+    """a style that omits an option is only a way to write the settings if the omitted option has its default"""
+    return {"kw": True, "pos": True, "pos-tp": s_[1] is True, "omit-tp": s_[0] is False, "omit-cp": s_[1] is True,
+            "omit-both": s_[0] is False and s_[1] is True}[style]
+
+
+def open_block(env, n):
+    """operator_overloading(...) as written: options by keyword, positionally, or omitted (then the default applies)"""
+    oo, s_ = env.fut.operator_overloading, n["s"]
+    style = n.get("call", "kw")
+    if not call_ok(style, s_):
+        style = "kw"
+    if style == "pos":
+        return oo(env.op, s_[0], s_[1])
+    if style == "pos-tp":
+        return oo(env.op, s_[0])
+    if style == "omit-tp":
+        return oo(env.op, constant_promotion=s_[1])
+    if style == "omit-cp":
+        return oo(env.op, type_promotion=s_[0])
+    if style == "omit-both":
+        return oo(env.op)
+    return oo(env.op, type_promotion=s_[0], constant_promotion=s_[1])
 
 
 def scoped_tree_json(prog):
-    return ["p" if n == "p" else ["b", n["s"], scoped_tree_json(n["body"])] for n in prog]
+    """for the model: the call as written (null = option omitted)"""
+    out = []
+    for n in prog:
+        if n == "p":
+            out.append("p")
+            continue
+        style = n.get("call", "kw") if call_ok(n.get("call", "kw"), n["s"]) else "kw"
+        tp = None if style in ("omit-tp", "omit-both") else n["s"][0]
+        cp = None if style in ("omit-cp", "omit-both", "pos-tp") else n["s"][1]
+        out.append(["b", [tp, cp], scoped_tree_json(n["body"])])
+    return out
 
 
 def enclosing_settings(prog, cur=None):
@@ -838,16 +888,16 @@ def run_scoped(env: Env, prog):
                 raise _ScopeBoom()
         return body
 
-    def executor(key, s_):
-        """one decorated function per (form, settings) that runs whatever body it is given"""
+    def executor(key, n_):
+        """one decorated function per (form, settings, call style) that runs whatever body it is given"""
         if key not in cache:
             if key[0] == "recursive":
-                @oo(env.op, type_promotion=s_[0], constant_promotion=s_[1])
+                @open_block(env, n_)
                 def f(body):
                     body()
                 cache[key] = [f]
             else:  # mutual: one decorator object, two functions
-                deco = oo(env.op, type_promotion=s_[0], constant_promotion=s_[1])
+                deco = open_block(env, n_)
 
                 @deco
                 def g1(body):
@@ -866,16 +916,16 @@ def run_scoped(env: Env, prog):
         depth[0] += 1
         try:
             if form == "with":
-                with oo(env.op, type_promotion=s_[0], constant_promotion=s_[1]):
+                with open_block(env, n):
                     body()
             elif form == "decorator":
-                oo(env.op, type_promotion=s_[0], constant_promotion=s_[1])(body)()
+                open_block(env, n)(body)()
             elif form in ("recursive", "mutual"):
-                fs = executor((form, tuple(s_)), s_)
+                fs = executor((form, tuple(s_), n.get("call", "kw")), n)
                 fs[depth[0] % len(fs)](body)
             else:  # generator suspended inside the block while the caller runs the body
                 def gen():
-                    with oo(env.op, type_promotion=s_[0], constant_promotion=s_[1]):
+                    with open_block(env, n):
                         yield 1
                 g = gen()
                 next(g)
@@ -911,7 +961,7 @@ def scoped_oracle(env: Env, prog, probes):
             elif not st[0]:
                 if opname == "add" and oa[0] == "var" and ob[0] == "var" and r.get("err") != "TypeError":
                     bad.append(("scoped:no-promotion:mixed-dtypes:not-TypeError", f"probe {i} ({where}): {expr} gives {r}"))
-                if ob is not None and ob[0] == "float" and r.get("err") != "TypeError":
+                if "float" in (oa[0], ob[0] if ob is not None else None) and r.get("err") != "TypeError":
                     bad.append(("scoped:no-promotion:float-constant:not-TypeError", f"probe {i} ({where}): {expr} gives {r}"))
                 if "tree" in r and "Cast[" in r["tree"]:
                     bad.append(("scoped:no-promotion:operand-converted", f"probe {i} ({where}): {expr} gives {r}"))
@@ -920,7 +970,7 @@ def scoped_oracle(env: Env, prog, probes):
                     want = env.code(numpy_expect(env.np, opname, np_operand_for(env, oa), np_operand_for(env, ob))[1].dtype)
                     if r.get("dtype") != want:
                         bad.append((f"scoped:promotion:{opname}:result-dtype", f"probe {i} ({where}): {expr} gives {r}, numpy's element type is {env.dtypes[want]}"))
-                if ob is not None and ob[0] == "float":
+                if "float" in (oa[0], ob[0] if ob is not None else None):
                     if st[1] and r.get("dtype") != env.code("float64"):
                         bad.append(("scoped:promotion:constant:result-dtype", f"probe {i} ({where}): {expr} gives {r}"))
                     if not st[1] and r.get("err") != "TypeError":
@@ -1368,7 +1418,7 @@ def run(ck: core.Check):
         vd = var_dunders.generate()
         base_ = _json.loads((Path(__file__).resolve().parent.parent / "c17_source_baseline.json").read_text())["digests"]
         changed_ = sorted(k for k in set(base_) | set(vd["digests"]) if base_.get(k) != vd["digests"].get(k))
-        boost = bool(changed_)
+        boost = bool(changed_) and not os.environ.get("VERIF_NO_ESCALATE")
         ck.cov["operator_wiring"] = {"dunders": len(vd["wires"]), "opaque": [w[0] for w in vd["wires"] if w[1] == "opaque"],
                                      "changed_since_baseline": changed_}
         if boost:
@@ -1395,7 +1445,8 @@ def run(ck: core.Check):
     #  InferenceError - before the constant is looked at; operand kinds the model does not describe are left out)
     scal += [["other", k] for k in JUNK]
     # constants equal to a neutral element of some operator (0, 1, -1, 0.0, 1.0, -0.0, False) and numpy scalars 0 / 1
-    scal += [["int", 0], ["int", 1], ["float", 0.0], ["float", 1.0], ["float", -0.0], ["float", -1.0], ["bool", False]]
+    scal += [["int", 0], ["int", 1], ["float", 0.0], ["float", 1.0], ["float", -0.0], ["float", -1.0], ["bool", False],
+             ["float", 2.0], ["float", -3.0]]
     scal += [["np", d, v] for d in (2, 3, 9, 10, 4) for v in (0, 1)]
     pairs = [(["var", a], ["var", b]) for a in range(ND) for b in range(ND)]
     for d in range(ND):
@@ -1547,6 +1598,25 @@ def run(ck: core.Check):
         opname, a, b = job
         dt_a = env.dtypes[a]
         xs = grid(np, dt_a)
+        if isinstance(b, tuple) and b[0] == "np":
+            # a numpy integer scalar next to an integer Var: theorems arith_npscalar_right/left. On the left the
+            # dispatcher method is called directly (Python hands `np.int32(3) - var` to numpy first)
+            _, side, db, v = b
+            npv = np.dtype(env.dtypes[db]).type(v)
+            vv = grid(np, dt_a, divisor=(opname == "floordiv" and side == "l"))
+            if opname == "floordiv" and side == "l":
+                vv = vv[vv != -1]
+            va = env.spox.argument(env.spox.Tensor(np.dtype(dt_a), ("N",)))
+            with env.fut.operator_overloading(env.op, type_promotion=True):
+                rr = PYOP[opname](va, npv) if side == "r" else getattr(env.dispatcher(), opname)(npv, va)
+            if np.dtype(rr.type.dtype).kind not in "iu":
+                return None
+            got, _ = env.run_model(rr, {"a": va}, {"a": vv})
+            if side == "r":
+                return ({"settings": [True, True], "op": opname, "a": ["var", a], "b": ["np", db],
+                         "xs": [int(t) for t in vv], "ys": [v]}, [[int(t)] for t in got])
+            return ({"settings": [True, True], "op": opname, "a": ["np", db], "b": ["var", a],
+                     "xs": [v], "ys": [int(t) for t in vv]}, [[int(t) for t in got]])
         if isinstance(b, tuple):
             # a Python int on the right ("r") or on the left ("l") of an integer Var: theorems arith_scalar_right/left
             side, v = b
@@ -1586,6 +1656,11 @@ def run(ck: core.Check):
 
     jobs = [(opname, a, b) for opname in ["add", "sub", "mul", "floordiv"] for a in INT for b in INT]
     jobs += [("neg", a, None) for a in range(4)]
+    for opname in ["add", "sub", "mul", "floordiv"]:
+        for a in (0, 2, 4, 6):  # int8, int32, uint8, uint32 Vars x numpy scalars of three dtypes
+            for db, v in ((2, 1000), (1, -7), (4, 200)):
+                jobs.append((opname, a, ("np", "r", db, v)))
+                jobs.append((opname, a, ("np", "l", db, v)))
     for opname in ["add", "sub", "mul", "floordiv"]:
         for a in INT:
             signed = np.dtype(env.dtypes[a]).kind == "i"
@@ -1821,7 +1896,8 @@ def run(ck: core.Check):
                 fail("strict", {"op": opname, "a": ["var", a], "b": ["var", b]},
                      safely(strictness_case, env, opname, ["var", a], ["var", b]))
                 n_strict += 1
-            for s in [["float", 1.5], ["int", 2], ["float", 0.0], ["float", 1.0], ["float", -0.0], ["int", 0], ["int", 1]]:
+            for s in [["float", 1.5], ["int", 2], ["float", 0.0], ["float", 1.0], ["float", -0.0], ["int", 0], ["int", 1],
+                      ["float", 2.0], ["float", -3.0], ["float", float(2 ** 53)]]:
                 for oa, ob in ((["var", a], s), (s, ["var", a])):
                     fail("strict", {"op": opname, "a": oa, "b": ob}, safely(strictness_case, env, opname, oa, ob))
                     n_strict += 1
